@@ -212,6 +212,14 @@ func c01Mutants(r *rand.Rand, sc *signCase, sig *pipeline.Signature, kp, other, 
 	m.Venv["ANOTHER_UNSIGNED"] = "x"
 	m.MustAccept = true
 	add(m)
+	m = base("control:unrelated-env-named-like-signed-fields")
+	for _, n := range []string{"command", "env", "plugins", "matrix", "repository_url", "env::", "signature"} {
+		if _, signed := sc.Penv[n]; !signed {
+			m.Venv[n] = "unrelated variable that happens to be called " + n
+		}
+	}
+	m.MustAccept = true
+	add(m)
 	for k := range sc.Step.Env {
 		if _, both := sc.Penv[k]; both {
 			m = base("control:shadowed-pipeline-var-changes")
@@ -398,6 +406,15 @@ func c01Mutants(r *rand.Rand, sc *signCase, sig *pipeline.Signature, kp, other, 
 			}
 			m.Step.Matrix.Adjustments[ai].RemainingFields["soft_fail_injected"] = true
 			add(m)
+			// unknown keys that differ from a declared key only in letter case are unknown keys all the same
+			for _, nk := range []string{"Skip", "WITH", "With"} {
+				m = base("matrix:adjustment-extra-key-spelled-like-a-field")
+				if m.Step.Matrix.Adjustments[ai].RemainingFields == nil {
+					m.Step.Matrix.Adjustments[ai].RemainingFields = map[string]any{}
+				}
+				m.Step.Matrix.Adjustments[ai].RemainingFields[nk] = "injected"
+				add(m)
+			}
 		}
 		m = base("matrix:extra-key")
 		if m.Step.Matrix.RemainingFields == nil {
@@ -405,6 +422,14 @@ func c01Mutants(r *rand.Rand, sc *signCase, sig *pipeline.Signature, kp, other, 
 		}
 		m.Step.Matrix.RemainingFields["injected"] = 1
 		add(m)
+		for _, nk := range []string{"SETUP", "Setup", "Adjustments"} {
+			m = base("matrix:extra-key-spelled-like-a-field")
+			if m.Step.Matrix.RemainingFields == nil {
+				m.Step.Matrix.RemainingFields = map[string]any{}
+			}
+			m.Step.Matrix.RemainingFields[nk] = []any{"injected"}
+			add(m)
+		}
 	} else {
 		m = base("matrix:add")
 		m.Step.Matrix = &pipeline.Matrix{Setup: pipeline.MatrixSetup{"": {"a"}}}
